@@ -301,3 +301,93 @@ Example C12_ex_ls_general_contract :
   ls_inv_contract 2 (fun i j => delta i j) (ls_JtJ ROps 2 2 (fun i j => delta i j)) /\
   ex_shear 0%nat 1%nat <> ex_shear 1%nat 0%nat.
 Proof. exact ex_ls_general_contract. Qed.
+
+(* ================= SYNTACTIC SOURCE TIE of the matrix code (translate/eigensym.py, translate/tr_C12_eigensym.py) =================
+   gen/SrcEigenC12.v is regenerated on every run from the clang AST of src/transform/SmartRotation3D.cpp and
+   src/geometry/Pose3D.cpp by a symbolic evaluator for small fixed-size Eigen expressions: the statements are executed over
+   matrices of scalar terms (element writes on the Identity / Zero initial values of the constructor, products, comma
+   initialisers with column / row blocks, cross products, the unrolled loop over k, block assignment, transpose).  The
+   theorems below say that those terms are the models every other theorem of this file is about (real instance). *)
+From Romea Require Import SrcTieC12 SrcTieC12Jac.
+From Romea.gen Require Import SrcFunsC10 SrcEigenC12.
+From Coq Require Import List String.
+Import ListNotations.
+
+(* --- SmartRotation3D(x,y,z) = default constructor ; init(x,y,z): all ten members, in declaration order, starting from the
+       constructor's Identity / Zero; the four the accessors return are exactly smart_init, the model C12_dRdX_model_char
+       characterises as "true derivative + identity leftover" (the open known finding) --- *)
+Theorem C12_source_tie_smart_rotation : forall x y z,
+  (src_smart_ctor_inputs = ["arg0"; "arg1"; "arg2"]%string /\
+   src_smart_ctor_outputs = ["Rx_"; "Ry_"; "Rz_"; "R_"; "dRxdAngleX_"; "dRydAngleY_"; "dRzdAngleZ_";
+                             "dRdAngleX_"; "dRdAngleY_"; "dRdAngleZ_"]%string) /\
+  src_smart_ctor ROps x y z =
+  (Rx_of ROps (cos x) (sin x), Ry_of ROps (cos y) (sin y), Rz_of ROps (cos z) (sin z), sR (smart_init ROps x y z),
+   dRx_of ROps (cos x) (sin x), dRy_of ROps (cos y) (sin y), dRz_of ROps (cos z) (sin z),
+   sdX (smart_init ROps x y z), sdY (smart_init ROps x y z), sdZ (smart_init ROps x y z)) /\
+  mkSmart (src_smart_ctor_R ROps x y z) (src_smart_ctor_dRdAngleX ROps x y z)
+          (src_smart_ctor_dRdAngleY ROps x y z) (src_smart_ctor_dRdAngleZ ROps x y z) = smart_init ROps x y z.
+Proof. exact source_tie_smart_rotation. Qed.
+Print Assumptions C12_source_tie_smart_rotation.
+
+(* SmartRotation3D::dRTdAngles(T) over arbitrary member matrices *)
+Theorem C12_source_tie_smart_dRTdAngles : forall (dx dy dz : mat3 R) (t : vec3 R),
+  src_smart_dRTdAngles_inputs = ["this.dRdAngleX_"; "this.dRdAngleY_"; "this.dRdAngleZ_"; "arg0"]%string /\
+  src_smart_dRTdAngles ROps dx dy dz t = smart_dRTdAngles ROps (mkSmart (mid3 ROps) dx dy dz) t.
+Proof. exact tie_smart_dRTdAngles. Qed.
+
+(* --- Pose3D operator*(const Eigen::Affine3d &, const Pose3D &): l = affine.rotation(), t = affine.translation(),
+       c / ori / pos = the members of the pose.  The only 6x6 local of the function (J) equals pose_J entry by entry (all 36),
+       the returned position is l*pos + t, the matrix handed to rotation3DToEulerAngles is l*S with S = SmartRotation3D(ori).R()
+       (through the delegating constructor, down to src_smart_ctor), the returned orientation is the C10 unit's term
+       src_rotation3DToEulerAngles applied to it, and the returned covariance is J*C*J^T — with the model's J and with the
+       generated J.  pose_J is the matrix C12_pose_jacobian / C12_pose_covariance prove to be the Jacobian. --- *)
+Theorem C12_source_tie_pose_jacobian : forall (l : mat3 R) (t : vec3 R) (c : nat -> nat -> R) (ori pos : vec3 R),
+  (src_pose3d_mul_inputs = ["arg0.rotation()"; "arg0.translation()"; "arg1.covariance"; "arg1.orientation"; "arg1.position"]%string /\
+   src_pose3d_mul_outputs = ["position"; "orientation"; "covariance"; "jacobian"; "euler_arg"]%string) /\
+  (forall i j, (i < 6)%nat -> (j < 6)%nat -> src_pose3d_mul_jacobian ROps l t c ori pos i j = pose_J ROps l ori i j) /\
+  src_pose3d_mul_position ROps l t c ori pos = vadd3 ROps (mvmul3 ROps l pos) t /\
+  src_pose3d_mul_euler_arg ROps l t c ori pos = mmul3 ROps l (sR (smart_init ROps (v0 ori) (v1 ori) (v2 ori))) /\
+  src_pose3d_mul_orientation ROps l t c ori pos =
+    (let m := src_pose3d_mul_euler_arg ROps l t c ori pos in
+     let '(r, p, y) := src_rotation3DToEulerAngles ROps (m00 m) (m10 m) (m20 m) (m21 m) (m22 m) in mkV3 r p y) /\
+  (forall i j, (i < 6)%nat -> (j < 6)%nat ->
+     src_pose3d_mul_covariance ROps l t c ori pos i j = pose_cov ROps (pose_J ROps l ori) c i j) /\
+  (forall i j, (i < 6)%nat -> (j < 6)%nat ->
+     src_pose3d_mul_covariance ROps l t c ori pos i j = pose_cov ROps (src_pose3d_mul_jacobian ROps l t c ori pos) c i j).
+Proof. exact source_tie_pose_jacobian. Qed.
+Print Assumptions C12_source_tie_pose_jacobian.
+
+(* the mean the model computes (pose_transform_mean, what the correspondence run executes) is the generated position /
+   orientation wherever asin is defined *)
+Theorem C12_source_tie_pose_mean : forall (l : mat3 R) (t : vec3 R) (c : nat -> nat -> R) (ori pos : vec3 R),
+  Rabs (m20 (mmul3 ROps l (sR (smart_init ROps (v0 ori) (v1 ori) (v2 ori))))) <= 1 ->
+  pose_transform_mean ROps ROps idR idR l t pos ori =
+  (src_pose3d_mul_position ROps l t c ori pos, Some (src_pose3d_mul_orientation ROps l t c ori pos)).
+Proof. exact tie_pose_mean. Qed.
+
+(* --- composed with C12_pose_jacobian: the 6x6 matrix GENERATED FROM THE SOURCE is, entry by entry, the Jacobian of the mean
+       map generated from the source (src_pose_map = position and orientation terms), for every rigid transform and every
+       pose off gimbal lock --- *)
+Theorem C12_source_pose_jacobian_is_derivative : forall l t (c : nat -> nat -> R) q,
+  proper_rotation l -> Rabs (m20 (Mrot l (q 3%nat) (q 4%nat) (q 5%nat))) < 1 ->
+  let pos := mkV3 (q 0%nat) (q 1%nat) (q 2%nat) in
+  let ori := mkV3 (q 3%nat) (q 4%nat) (q 5%nat) in
+  forall i j, (i < 6)%nat -> (j < 6)%nat ->
+    is_derive_mod2pi (fun s => pose_map l t (upd q j s) i) (q j) (src_pose3d_mul_jacobian ROps l t c ori pos i j) /\
+    src_pose_map l t c q i = pose_map l t q i.
+Proof. exact source_pose_jacobian_is_derivative. Qed.
+Print Assumptions C12_source_pose_jacobian_is_derivative.
+
+(* --- the open known finding stated about the GENERATED terms: what dRdAngleAroundX/Y/ZAxis() return (members dRdAngleX_/Y_/Z_
+       after the constructor and init) is the true derivative of R plus the identity leftover of C12_extra_terms, never the
+       derivative itself; R() is Rz*Ry*Rx --- *)
+Theorem C12_source_smart_derivative_leftover : forall x y z,
+  (src_smart_ctor_dRdAngleX ROps x y z = madd3 ROps (dRdX_true x y z) (extraX x y z) /\
+   src_smart_ctor_dRdAngleY ROps x y z = madd3 ROps (dRdY_true x y z) (extraY x y z) /\
+   src_smart_ctor_dRdAngleZ ROps x y z = madd3 ROps (dRdZ_true x y z) (extraZ x y z)) /\
+  (src_smart_ctor_dRdAngleX ROps x y z <> dRdX_true x y z /\
+   src_smart_ctor_dRdAngleY ROps x y z <> dRdY_true x y z /\
+   src_smart_ctor_dRdAngleZ ROps x y z <> dRdZ_true x y z) /\
+  src_smart_ctor_R ROps x y z = rot_zyx x y z.
+Proof. exact source_smart_derivative_leftover. Qed.
+Print Assumptions C12_source_smart_derivative_leftover.
